@@ -75,6 +75,20 @@ def handle (j : Json) : Json :=
           Json.mkObj [("mw", natJ m), ("scope", natJ s), ("get", gets s)])).toArray),
         ("appget", gets g.app)]
     | _, _ => Json.mkObj [("r", "bad-op")]
+  | some "generic" =>
+    -- {"op":"generic","edges":[[parent,child],…],"app":n,"regs":[[scope,fn,ty],…],"tmpls":[[scope,fn,[ty,…]],…],
+    --  "queries":[[scope,ty],…]}: what `get_or_try_bind` designates (function id) for each query
+    let pairs := fun (k : String) => ((getArr? j k).getD []).filterMap (fun r => match r with
+      | .arr #[a, b] => do pure ((← a.getNat?.toOption), (← b.getNat?.toOption))
+      | _ => none)
+    let g : SGraph := { app := (getNat? j "app").getD 0, edges := pairs "edges" }
+    let regs : List (Nat × Ctor) := ((getArr? j "regs").getD []).filterMap (fun r => match r with
+      | .arr #[s, f, t] => do pure ((← s.getNat?.toOption), { id := (← f.getNat?.toOption), ty := (← t.getNat?.toOption) })
+      | _ => none)
+    let tmpls : List (Nat × Tmpl) := ((getArr? j "tmpls").getD []).filterMap (fun r => match r with
+      | .arr #[s, f, .arr ts] => do pure ((← s.getNat?.toOption), { id := (← f.getNat?.toOption), insts := ts.toList.filterMap (·.getNat?.toOption) })
+      | _ => none)
+    Json.mkObj [("r", "ok"), ("ans", Json.arr ((pairs "queries").map (fun (s, t) => optCtorJ (getT g regs tmpls s t))).toArray)]
   | some "clone" =>
     match (getVal? j "g").bind Pxv.CG.graph?, getArr? j "reqs" with
     | some g, some reqs =>
